@@ -138,6 +138,8 @@ impl Storm {
             }
             if r.gen_bool(0.3) {
                 c.borrow_limit = fund / pick(&mut r, &[2u64, 10]);
+            } else if r.gen_bool(0.12) && i > 0 {
+                c.borrow_limit = 0; // lending switched off
             }
             if r.gen_bool(0.25) && !isolated {
                 c.total_asset_value_init_limit = pick(&mut r, &[1u64, 1000, 1_000_000]);
